@@ -273,3 +273,10 @@ func (r *Recorder) Tally(class string) {
 	r.classes[class]++
 	r.mu.Unlock()
 }
+
+// TallyN adds n to a side-information counter.
+func (r *Recorder) TallyN(class string, n int) {
+	r.mu.Lock()
+	r.classes[class] += int64(n)
+	r.mu.Unlock()
+}
